@@ -1,3 +1,586 @@
+/-
+C19 — actors: serial FIFO handling, ordered lifecycle, unique names, group routing.
+Property theorems only (helper lemmas live in Compio/Lemmas). The mailbox/lifecycle theorems quantify over
+*every schedule*: every list of atomic actions `evs` of sender threads, stoppers and the actor task that the
+transition system of Model/Actor.lean admits, any capacity, named or not, any results of hooks and handlers.
+The routing theorems quantify over every member vector, cursor and status assignment.
+-/
+import Compio.Lemmas.Group
+import Compio.Lemmas.ActorProgress
+import Compio.Lemmas.ActorLife
+import Compio.Lemmas.Registry
+import Compio.Lemmas.History
 import Compio.Model.ActorWorld
+
 namespace Compio.Props.C19
+open Compio Compio.Actor
+
+/-- everything below is about states reached by some schedule from a fresh mailbox + dispatched closure -/
+def Reached (cap : Nat) (named : Bool) (s : St) : Prop := ∃ evs, run (St.init cap named) evs = some s
+
+/-! ## 1. Messages: FIFO, at most once, one at a time, nothing lost -/
+
+/-- The handled sequence is a prefix of the acceptance order (so also: in order, each at most once by position). -/
+theorem handled_prefix_of_accepted {cap named s} (h : Reached cap named s) : s.handled <+: s.accepted := by
+  obtain ⟨evs, hr⟩ := h
+  have : InvQ s := run_induct (invQ_init cap named) invQ_step hr
+  unfold InvQ at this
+  rw [this]; exact List.prefix_append _ _
+
+/-- Nothing accepted disappears: what is not handled yet is exactly what the channel holds, in order. -/
+theorem accepted_is_handled_plus_queued {cap named s} (h : Reached cap named s) :
+    s.accepted = s.handled ++ s.queue.map (·.id) := by
+  obtain ⟨evs, hr⟩ := h
+  exact run_induct (P := InvQ) (invQ_init cap named) invQ_step hr
+
+/-- Each message is handled at most once. -/
+theorem handled_at_most_once {cap named s} (h : Reached cap named s) (hid : s.accepted.Nodup) :
+    s.handled.Nodup :=
+  List.Nodup.sublist (handled_prefix_of_accepted h).sublist hid
+
+/-- The mailbox never holds more than its capacity. -/
+theorem queue_bounded {cap named s} (h : Reached cap named s) : s.queue.length ≤ cap := by
+  obtain ⟨evs, hr⟩ := h
+  have hc : s.cap = cap := by
+    have := run_induct (P := fun s => s.cap = cap) (by simp [St.init])
+      (fun s e s' hp hs => by rw [cap_step s e s' hs]; exact hp) hr
+    exact this
+  have : InvC s := run_induct (invC_init cap named) invC_step hr
+  unfold InvC at this
+  omega
+
+/-- The observable log is a word of the lifecycle automaton (`lifeStep`): hooks in the documented order,
+handlers only between `post_start` and `pre_stop`, never two handlers open at once. -/
+theorem log_follows_lifecycle {cap named s} (h : Reached cap named s) :
+    ∃ l, lifeRun .fresh s.log = some l ∧ agree l s.pc = true := by
+  obtain ⟨evs, hr⟩ := h
+  exact run_induct (P := InvL) (invL_init cap named) invL_step hr
+
+/-- Handlers never overlap: a handler entry is directly followed by the return of that same handler. -/
+theorem handlers_never_overlap {cap named s} (h : Reached cap named s) (pre post : List Obs) (m : Nat)
+    (hl : s.log = pre ++ .hs m :: post) : post = [] ∨ ∃ ok post', post = .he m ok :: post' := by
+  obtain ⟨l, hrun, _⟩ := log_follows_lifecycle h
+  rw [hl] at hrun
+  exact handler_bracketed _ _ pre post m hrun
+
+/-- The handled sequence is exactly the sequence of handler entries of the log. -/
+theorem handled_is_logged {cap named s} (h : Reached cap named s) : s.handled = hsIds s.log := by
+  obtain ⟨evs, hr⟩ := h
+  exact run_induct (P := InvH) (invH_init cap named) invH_step hr
+
+/-- `recv` with no stop request takes the oldest message … -/
+theorem recv_takes_oldest (s : St) (it : Item) (q : List Item)
+    (h1 : s.pc = .atRecv) (h2 : s.stopSlot = false) (h3 : s.queue = it :: q) :
+    ∃ s', run s [.pollStop, .pollMsg] = some s' ∧ s'.pc = .handling it false ∧ s'.queue = q := by
+  obtain ⟨s', a, b, c, _⟩ := recv_takes_head s it q h1 h2 h3
+  exact ⟨s', a, b, c⟩
+
+/-- … and a stop request wins over anything queued (biased select): those messages are never handled. -/
+theorem recv_stop_first (s : St) (h1 : s.pc = .atRecv) (h2 : s.stopSlot = true) :
+    ∃ s', step s .pollStop = some s' ∧ s'.pc = .finBegin .stopped ∧ s'.queue = s.queue ∧ s'.handled = s.handled :=
+  recv_prefers_stop s h1 h2
+
+/-- All accepted messages are handled unless a stop or a failure comes first: with no stop request pending and
+handlers that neither fail nor stop the actor, the task's own continuation empties the queue in order. -/
+theorem all_accepted_handled_unless_stopped (sc : Script) (s : St) (n : Nat)
+    (h1 : s.pc = .atRecv) (h2 : s.stopSlot = false)
+    (hq : ∀ it ∈ s.queue, sc.handlerOk it = true ∧ sc.stopsSelf it = false) :
+    let s' := settle sc (3 * s.queue.length + n) s
+    s'.pc = .atRecv ∧ s'.queue = [] ∧ s'.handled = s.handled ++ s.queue.map (·.id) :=
+  let r := settle_drains sc s.queue s n h1 h2 rfl hq
+  ⟨r.1, r.2.1, r.2.2.1⟩
+
+/-- The actor task is never stuck: whatever the others did, its next own actions are enabled. -/
+theorem actor_task_never_stuck {cap named s} (sc : Script) (h : Reached cap named s) :
+    (run s (nextEvents sc s)).isSome = true := by
+  obtain ⟨evs, hr⟩ := h
+  exact nextEvents_enabled sc s (run_induct (P := InvR) (invR_init cap named) invR_step hr)
+
+/-- An actor reports `Stopped` only if a stop request was consumed (or its spawn future had been dropped). -/
+theorem stopped_has_a_reason {cap named s} (h : Reached cap named s) (hp : s.pc = .exited .stopped) :
+    s.stopConsumed = true ∨ s.detached = true := by
+  obtain ⟨evs, hr⟩ := h
+  have : InvX s := run_induct (invX_init cap named) invX_step hr
+  exact this (by simp [hp, Pc.exit?])
+
+/-- Once the actor is gone the mailbox is closed: every later `send` answers `Closed`. -/
+theorem closed_after_exit {cap named s} (h : Reached cap named s) (e : Exit) (hp : s.pc = .exited e)
+    (it : Item) (r : SendRes) (s' : St) (hs : sendNow s it = some (r, s')) : r = .closed := by
+  obtain ⟨evs, hr⟩ := h
+  have hR : InvR s := run_induct (invR_init cap named) invR_step hr
+  have hc : s.isClosed = true := by simp [St.isClosed, hR.rx, hp, Pc.rxDropped]
+  have := sendNow_result s it r s' hs
+  simpa [hc] using this
+
+/-! ## 2. Lifecycle hooks: documented order, exactly once, on every path -/
+
+/-- After the exit every hook ran exactly once in the order pre_start, post_start, pre_stop, post_stop
+(whatever failed on the way); the only other complete path is the dropped spawn future, which skips
+`post_start`. A failed `pre_start` runs nothing else. -/
+theorem hooks_exactly_once_in_order {cap named s} (h : Reached cap named s) :
+    (∀ e, s.pc = .exited e →
+      hookNames s.log = [.preStart, .postStart, .preStop, .postStop] ∨
+      hookNames s.log = [.preStart, .preStop, .postStop]) ∧
+    (s.pc = .startFailed → hookNames s.log = [.preStart]) := by
+  obtain ⟨l, hrun, hag⟩ := log_follows_lifecycle h
+  have hk := hooks_along s.log .fresh l [] hrun (by simp [hooksAt])
+  simp only [List.nil_append] at hk
+  constructor
+  · intro e hp
+    rw [hp] at hag
+    cases l <;> simp [agree] at hag
+    simpa [hooksAt] using hk
+  · intro hp
+    rw [hp] at hag
+    cases l <;> simp [agree] at hag
+    simpa [hooksAt] using hk
+
+/-- The short path is taken only when the spawn future was dropped before start-up was reported. -/
+theorem post_start_skipped_only_when_detached {cap named s} (h : Reached cap named s) (e : Exit)
+    (hp : s.pc = .exited e) (hd : s.detached = false) :
+    hookNames s.log = [.preStart, .postStart, .preStop, .postStop] := by
+  obtain ⟨evs, hr⟩ := h
+  -- invariant: not detached and past `started_tx.send` ⇒ `post_start` is in the log
+  have key : ∀ s, (run (St.init cap named) evs = some s) →
+      (s.detached = false → (match s.pc with
+        | .init | .startFailed | .preStarted | .postStart => True
+        | _ => Obs.hook .postStart true ∈ s.log ∨ Obs.hook .postStart false ∈ s.log)) := by
+    intro s hr
+    refine run_induct (P := fun s => s.detached = false → (match s.pc with
+        | .init | .startFailed | .preStarted | .postStart => True
+        | _ => Obs.hook .postStart true ∈ s.log ∨ Obs.hook .postStart false ∈ s.log)) ?_ ?_ hr
+    · simp [St.init]
+    · intro s e s' hi hs
+      cases e <;> simp only [step] at hs <;> step_cases hs <;> simp_all [St.obs]
+  have hps := key s hr hd
+  rw [hp] at hps
+  simp only at hps
+  have hh := (hooks_exactly_once_in_order ⟨evs, hr⟩).1 e hp
+  rcases hh with hh | hh
+  · exact hh
+  · exfalso
+    have : Hook.postStart ∈ hookNames s.log := by
+      unfold hookNames
+      rcases hps with hps | hps
+      · exact List.mem_filterMap.mpr ⟨_, hps, rfl⟩
+      · exact List.mem_filterMap.mpr ⟨_, hps, rfl⟩
+    rw [hh] at this
+    simp at this
+
+/-! ## 3. Calls -/
+
+/-- Every call ever issued is in exactly one place: answered, queued, about to be pushed, or being handled. -/
+theorem calls_accounted {cap named s} (h : Reached cap named s) :
+    s.issued = s.resolved.length + (if s.chanAlive then callCount s.queue else 0)
+      + callCount s.inflight + inHand s.pc := by
+  obtain ⟨evs, hr⟩ := h
+  have : ∀ s, run (St.init cap named) evs = some s → InvR s ∧ InvCa s := by
+    intro s hr
+    refine run_induct (P := fun s => InvR s ∧ InvCa s) ⟨invR_init cap named, invCa_init cap named⟩ ?_ hr
+    intro s e s' ⟨h1, h2⟩ hs
+    exact ⟨invR_step s e s' h1 hs, invCa_step s e s' h1 h2 hs⟩
+  exact (this s hr).2
+
+/-- A reply is the reply of the handler of that very call; `NoReply` means that handler returned without
+answering (reply sender dropped ⇒ the receiver errors) or the whole channel was destroyed. -/
+theorem reply_comes_from_the_handler {cap named s} (h : Reached cap named s) :
+    (∀ c v, (c, Res.reply v) ∈ s.resolved → c ∈ s.handled) ∧
+    (∀ c, (c, Res.noReply) ∈ s.resolved → c ∈ s.handled ∨ s.chanAlive = false) := by
+  obtain ⟨evs, hr⟩ := h
+  have : InvRe s := run_induct (invRe_init cap named) invRe_step hr
+  exact ⟨this.reply, this.noReply⟩
+
+/-- A handler that returns without answering resolves the call with `NoReply` at that moment. -/
+theorem unanswered_call_errors (s : St) (it : Item) (ok : Bool) (hp : s.pc = .handling it false)
+    (hc : it.call = true) :
+    ∃ s', step s (.handlerEnd ok) = some s' ∧ (it.id, Res.noReply) ∈ s'.resolved := by
+  simp [step, hp, St.obs, resolve_resolved, hc]
+
+/-- A call to an actor that is gone is rejected at once with `Closed`. -/
+theorem call_after_exit_is_closed {cap named s} (h : Reached cap named s) (e : Exit) (hp : s.pc = .exited e)
+    (it : Item) (r : SendRes) (s' : St) (hs : sendNow s it = some (r, s')) : r = .closed :=
+  closed_after_exit h e hp it r s' hs
+
+/-- PARTIAL (finding F14): *once the actor is gone every call is over* holds only when no call envelope was
+still queued at the exit. Full statement the code violates (see `Cex.C19.call_stranded_counterexample`):
+`s.pc = .exited e → s.inflight = [] → s.issued = s.resolved.length`. -/
+theorem calls_over_after_exit_partial {cap named s} (h : Reached cap named s) (e : Exit)
+    (hp : s.pc = .exited e) (hin : s.inflight = []) (hq : callCount s.queue = 0) :
+    s.issued = s.resolved.length := by
+  have := calls_accounted h
+  simp [hp, hin, hq, inHand] at this
+  exact this
+
+/-- What is left hanging after the exit is exactly the calls stranded in the dead channel. -/
+theorem pending_after_exit_are_stranded {cap named s} (h : Reached cap named s) (e : Exit)
+    (hp : s.pc = .exited e) (hin : s.inflight = []) (hc : s.chanAlive = true) :
+    s.issued = s.resolved.length + callCount s.queue := by
+  have := calls_accounted h
+  simp [hp, hin, hc, inHand] at this
+  exact this
+
+/-! ## 4. Names -/
+
+/-- The registration token follows the task: reserved (invisible) until `pre_start` succeeded, active while the
+actor lives, released on every terminal path -- failed start and exit alike. -/
+theorem registration_follows_lifecycle {cap named s} (h : Reached cap named s) :
+    (s.pc = .init → s.tok = .unnamed ∨ s.tok = .reserved) ∧
+    (s.pc.terminal = true → s.tok = .unnamed ∨ s.tok = .dropped) ∧
+    (s.tok = .active → s.pc ≠ .init ∧ s.pc.terminal = false) := by
+  obtain ⟨evs, hr⟩ := h
+  have hk : InvK s := run_induct (invK_init cap named) invK_step hr
+  unfold InvK at hk
+  refine ⟨?_, ?_, ?_⟩
+  · intro hp; rw [hp] at hk; cases ht : s.tok <;> simp_all [tokOk]
+  · intro hp
+    cases hpc : s.pc <;> simp [hpc, Pc.terminal] at hp <;>
+      (rw [hpc] at hk; cases ht : s.tok <;> simp_all [tokOk])
+  · intro ht
+    rw [ht] at hk
+    cases hpc : s.pc <;> simp_all [tokOk, Pc.terminal]
+
+/-- Registry: for every sequence of reserve / activate / drop that ownership allows, the map is the image of
+the live registrations, no two of which share a name or an owner; `activate` never hits its `expect`. -/
+theorem registry_invariant (evs : List Registry.REv) (s : Registry.RSt)
+    (h : Registry.RSt.run {} evs = some s) : Registry.Inv s :=
+  Registry.inv_run {} s evs Registry.inv_init h
+
+/-- At most one entry -- one live actor -- per name. -/
+theorem at_most_one_actor_per_name (evs : List Registry.REv) (s : Registry.RSt)
+    (h : Registry.RSt.run {} evs = some s) (t u : Registry.Token)
+    (ht : t ∈ s.live) (hu : u ∈ s.live) (hn : t.name = u.name) : t = u :=
+  Registry.inj_of_nodup_map (·.name) s.live (registry_invariant evs s h).names t ht u hu hn
+
+/-- `lookup` answers an actor exactly when that actor holds the name and its start-up succeeded. -/
+theorem lookup_iff_activated (evs : List Registry.REv) (s : Registry.RSt)
+    (h : Registry.RSt.run {} evs = some s) (n : Registry.Name) (a : Nat) :
+    Registry.get s.map n = some a ↔ ∃ t ∈ s.live, t.name = n ∧ t.owner = a ∧ t.active = true := by
+  have hi := registry_invariant evs s h
+  rw [hi.image]
+  exact Registry.get_image s.live hi.names n a
+
+/-- A name is free again as soon as its registration is dropped (exit or failed start): `reserve` succeeds. -/
+theorem name_free_after_drop (evs : List Registry.REv) (s s' : Registry.RSt)
+    (h : Registry.RSt.run {} evs = some s) (a : Nat) (t : Registry.Token)
+    (ht : s.tokenOf a = some t) (hd : s.step (.drop a) = some s') :
+    Registry.get s'.map t.name = none ∧ (Registry.reserve s'.map t.name).isSome = true := by
+  have hi' : Registry.Inv s' := Registry.inv_step s _ s' (registry_invariant evs s h) hd
+  have hi := registry_invariant evs s h
+  simp only [Registry.RSt.step, ht] at hd
+  cases hd
+  obtain ⟨htm, hta⟩ := Registry.tokenOf_mem s a t ht
+  have hno : Registry.Map.has (Registry.release s.map t.name) t.name = false := by
+    simp [Registry.Map.has, Registry.release]
+  constructor
+  · simp only [Registry.get]
+    have : (Registry.release s.map t.name).find? (fun e => e.1 == t.name) = none := by
+      simp [Registry.release]
+    simp [this]
+  · simp [Registry.reserve, hno]
+
+/-! ## 5. Group routing (`ProcessGroup::send` as a pure function) -/
+
+section Group
+open Compio.Group
+variable {α : Type}
+
+/-- `send` computes exactly the reference: first accepting member in scan order, evicting the closed members
+met on the way, cursor advanced by one. -/
+theorem send_characterised (status : α → Status) (c : Nat) (ms : List α) (hne : ms ≠ []) :
+    send status c ms =
+      (specOutcome status (scanOrder c ms), specMembers status c ms, (c + 1) % usizeMod) := by
+  have hlen : 0 < ms.length := List.length_pos_iff.mpr hne
+  have hk : c % ms.length < ms.length := Nat.mod_lt _ hlen
+  have hemp : ms.isEmpty = false := by cases ms <;> simp_all
+  unfold send select
+  simp only [hemp, Bool.false_eq_true, if_false]
+  have hsplit : ms = ms.take (c % ms.length) ++ [] ++ ms.drop (c % ms.length) := by simp
+  have hT : ms.drop (c % ms.length) ≠ [] := by
+    intro h
+    have := congrArg List.length h
+    simp at this; omega
+  have hfuel : ms.length = (ms.drop (c % ms.length)).length + (ms.take (c % ms.length)).length := by
+    simp; omega
+  have key := scan_wrap status (ms.drop (c % ms.length)) (ms.take (c % ms.length)) [] false (c % ms.length)
+    (by intro _; simp; omega) (by intro h; exact absurd h hT)
+  rw [← hsplit, ← hfuel] at key
+  rw [key]
+  simp only [specOutcome, specMembers, scanOrder, segOutcome_eq, List.find?_append, dropWhile_isEmpty_iff,
+    List.any_append, Bool.false_or, List.append_nil, giveUp]
+  cases h1 : List.find? (isOk status) (List.drop (c % ms.length) ms) <;>
+    cases h2 : List.find? (isOk status) (List.take (c % ms.length) ms) <;> simp <;> split <;> rfl
+
+/-- `send` terminates (it is a structural recursion on the loop's own attempt counter) and never indexes the
+member vector out of range, for every vector, cursor and status assignment. -/
+theorem send_never_panics (status : α → Status) (c : Nat) (ms : List α) :
+    (send status c ms).1 ≠ .panic := by
+  by_cases hne : ms = []
+  · subst hne; simp [send]
+  · rw [send_characterised status c ms hne]
+    simp only [specOutcome]
+    split <;> (try split) <;> simp
+
+/-- If some member is live and not full, the message goes to exactly one member: the first such member in
+scan order. -/
+theorem send_delivers_to_first_available (status : α → Status) (c : Nat) (ms : List α)
+    (m : α) (hm : m ∈ ms) (hok : status m = .ok) :
+    ∃ m', (send status c ms).1 = .delivered m' ∧ (scanOrder c ms).find? (isOk status) = some m' ∧
+      status m' = .ok := by
+  have hne : ms ≠ [] := by intro h; subst h; simp at hm
+  rw [send_characterised status c ms hne]
+  have hmem : m ∈ scanOrder c ms := by
+    unfold scanOrder
+    rw [List.mem_append]
+    have := List.take_append_drop (c % ms.length) ms
+    rw [← this] at hm
+    rcases List.mem_append.mp hm with h | h
+    · exact Or.inr h
+    · exact Or.inl h
+  cases hf : (scanOrder c ms).find? (isOk status) with
+  | none =>
+    have := List.find?_eq_none.mp hf m hmem
+    simp [isOk, hok] at this
+  | some m' =>
+    refine ⟨m', by simp [specOutcome, hf], rfl, ?_⟩
+    have := List.find?_some hf
+    simpa [isOk] using this
+
+/-- Otherwise the message is handed back: `Full` if any member was full, else `Closed`. -/
+theorem send_hands_back (status : α → Status) (c : Nat) (ms : List α)
+    (hno : ∀ m ∈ ms, status m ≠ .ok) :
+    (send status c ms).1 = (if ms.any (isFull status) then .full else .closed) := by
+  by_cases hne : ms = []
+  · subst hne; simp [send]
+  · rw [send_characterised status c ms hne]
+    have hperm : ∀ m, m ∈ scanOrder c ms ↔ m ∈ ms := by
+      intro m
+      unfold scanOrder
+      rw [List.mem_append]
+      conv => rhs; rw [← List.take_append_drop (c % ms.length) ms, List.mem_append]
+      exact Or.comm
+    have hf : (scanOrder c ms).find? (isOk status) = none := by
+      apply List.find?_eq_none.mpr
+      intro m hm
+      have := hno m ((hperm m).mp hm)
+      simp [isOk, this]
+    have hany : (scanOrder c ms).any (isFull status) = ms.any (isFull status) := by
+      unfold scanOrder
+      conv => rhs; rw [← List.take_append_drop (c % ms.length) ms]
+      simp only [List.any_append, Bool.or_comm]
+    simp [specOutcome, hf, hany]
+
+/-- Eviction: the membership afterwards is the old one without the closed members that were met, order kept
+(positional form, no assumption on ids). -/
+theorem send_evicts_closed_members_met (status : α → Status) (c : Nat) (ms : List α) (hne : ms ≠ []) :
+    (send status c ms).2.1 = specMembers status c ms := by
+  rw [send_characterised status c ms hne]
+
+/-- Nothing is ever added, order is preserved, and only closed members disappear. -/
+theorem send_only_removes_closed (status : α → Status) (c : Nat) (ms : List α) :
+    (send status c ms).2.1.Sublist ms ∧
+    ∀ m ∈ ms, status m ≠ .closed → m ∈ (send status c ms).2.1 := by
+  by_cases hne : ms = []
+  · subst hne; simp [send]
+  · rw [send_characterised status c ms hne]
+    have hev : ∀ seg : List α, (evictSeg status seg).Sublist seg ∧
+        ∀ m ∈ seg, status m ≠ .closed → m ∈ evictSeg status seg := by
+      intro seg
+      constructor
+      · unfold evictSeg met
+        conv => rhs; rw [← List.takeWhile_append_dropWhile (p := fun m => !isOk status m) (l := seg)]
+        exact List.Sublist.append List.filter_sublist (List.Sublist.refl _)
+      · intro m hm hnc
+        unfold evictSeg met
+        rw [← List.takeWhile_append_dropWhile (p := fun m => !isOk status m) (l := seg)] at hm
+        rcases List.mem_append.mp hm with h | h
+        · apply List.mem_append_left
+          apply List.mem_filter.mpr
+          refine ⟨h, ?_⟩
+          simp only [isClosed, Bool.not_eq_true', beq_eq_false_iff_ne, ne_eq]
+          exact hnc
+        · exact List.mem_append_right _ h
+    simp only [specMembers]
+    constructor
+    · conv => rhs; rw [← List.take_append_drop (c % ms.length) ms]
+      split
+      · exact List.Sublist.append (hev _).1 (hev _).1
+      · exact List.Sublist.append (List.Sublist.refl _) (hev _).1
+    · intro m hm hnc
+      rw [← List.take_append_drop (c % ms.length) ms] at hm
+      rcases List.mem_append.mp hm with h | h
+      · apply List.mem_append_left
+        split
+        · exact (hev _).2 m h hnc
+        · exact h
+      · exact List.mem_append_right _ ((hev _).2 m h hnc)
+
+/-- The cursor advances by exactly one per `send` on a non-empty group (wrapping at `usize::MAX`), and an
+empty group is left alone. -/
+theorem send_cursor (status : α → Status) (c : Nat) (ms : List α) :
+    (send status c ms).2.2 = if ms = [] then c else (c + 1) % usizeMod := by
+  by_cases hne : ms = []
+  · subst hne; simp [send]
+  · rw [send_characterised status c ms hne]; simp [hne]
+
+/-- Round-robin fairness: with a stable membership (nobody closed), every member that accepts is chosen by one
+of any `|members|` consecutive sends (cursor `c`, `c+1`, …; no `usize` wrap in between). -/
+theorem round_robin_fair (status : α → Status) (c : Nat) (ms : List α) (i : Nat) (hi : i < ms.length)
+    (hok : status ms[i] = .ok) :
+    ∃ k, k < ms.length ∧ (send status (c + k) ms).1 = .delivered ms[i] := by
+  have hne : ms ≠ [] := by intro h; subst h; simp at hi
+  have hlen : 0 < ms.length := by omega
+  -- the send whose cursor points at `i`
+  refine ⟨(i + ms.length - c % ms.length) % ms.length, Nat.mod_lt _ hlen, ?_⟩
+  have hmod : (c + (i + ms.length - c % ms.length) % ms.length) % ms.length = i := by
+    have h1 : c % ms.length < ms.length := Nat.mod_lt _ hlen
+    have e1 : (c + (i + ms.length - c % ms.length) % ms.length) % ms.length
+        = (c % ms.length + (i + ms.length - c % ms.length)) % ms.length := by
+      rw [Nat.add_mod c _ ms.length, Nat.mod_mod]
+      conv => rhs; rw [Nat.add_mod, Nat.mod_mod]
+    have : c % ms.length + (i + ms.length - c % ms.length) = i + ms.length := by omega
+    rw [e1, this, Nat.add_mod_right, Nat.mod_eq_of_lt hi]
+  rw [send_characterised status _ ms hne]
+  simp only [specOutcome, scanOrder, hmod]
+  have hd : ms.drop i = ms[i] :: ms.drop (i + 1) := by
+    rw [List.drop_eq_getElem_cons hi]
+  have : List.find? (isOk status) (ms.drop i ++ ms.take i) = some ms[i] := by
+    rw [List.find?_append, hd, List.find?_cons]; simp [isOk, hok]
+  rw [this]
+
+/-- With nobody closed the membership and the scan are stable, so the `k`-th of consecutive sends really runs
+with cursor `c + k`. -/
+theorem send_stable_without_closed (status : α → Status) (c : Nat) (ms : List α)
+    (hnc : ∀ m ∈ ms, status m ≠ .closed) (hw : c + 1 < usizeMod) :
+    (send status c ms).2 = (ms, if ms = [] then c else c + 1) := by
+  have h1 := send_only_removes_closed status c ms
+  have hsub := h1.1
+  have hall : ∀ m ∈ ms, m ∈ (send status c ms).2.1 := fun m hm => h1.2 m hm (hnc m hm)
+  have hcur := send_cursor status c ms
+  have hmem : (send status c ms).2.1 = ms := by
+    by_cases hne : ms = []
+    · subst hne; simp [send]
+    · rw [send_characterised status c ms hne]
+      simp only [specMembers]
+      have hev : ∀ seg : List α, (∀ m ∈ seg, status m ≠ .closed) → evictSeg status seg = seg := by
+        intro seg hs
+        unfold evictSeg met
+        have : (seg.takeWhile fun m => !isOk status m).filter (fun m => !isClosed status m)
+            = seg.takeWhile fun m => !isOk status m := by
+          apply List.filter_eq_self.mpr
+          intro m hm
+          have := hs m ((List.takeWhile_sublist _).subset hm)
+          simp only [isClosed, Bool.not_eq_true', beq_eq_false_iff_ne, ne_eq]
+          exact this
+        rw [this, List.takeWhile_append_dropWhile]
+      have ht : ∀ m ∈ ms.take (c % ms.length), status m ≠ .closed :=
+        fun m hm => hnc m (List.mem_of_mem_take hm)
+      have hd : ∀ m ∈ ms.drop (c % ms.length), status m ≠ .closed :=
+        fun m hm => hnc m (List.mem_of_mem_drop hm)
+      rw [hev _ ht, hev _ hd]
+      simp
+  rw [Prod.ext_iff]
+  refine ⟨hmem, ?_⟩
+  rw [hcur]
+  by_cases hne : ms = []
+  · simp [hne]
+  · simp [hne, Nat.mod_eq_of_lt hw]
+
+end Group
+
+/-! ## 6. The trace acceptors of the correspondence check accept every behaviour of the model -/
+
+/-- any model log passes the lifecycle acceptor; after the exit it passes the strict one -/
+theorem model_life_accepted {cap named s} (h : Reached cap named s) :
+    History.lifeOk .unknown s.log = true ∧
+    (∀ e, s.pc = .exited e → History.lifeOk .exited s.log = true) ∧
+    (s.pc = .startFailed → History.lifeOk .startFailed s.log = true) := by
+  obtain ⟨l, hrun, hag⟩ := log_follows_lifecycle h
+  refine ⟨by simp [History.lifeOk, hrun], ?_, ?_⟩
+  · intro e hp
+    rw [hp] at hag
+    cases l <;> simp [agree] at hag
+    simp [History.lifeOk, hrun]
+  · intro hp
+    rw [hp] at hag
+    cases l <;> simp [agree] at hag
+    simp [History.lifeOk, hrun]
+
+/-- any model run passes the FIFO acceptor for every way of attributing the accepted messages to sender
+threads (each thread's list a subsequence of the acceptance order); with an empty queue it passes the
+`complete` variant. -/
+theorem model_fifo_accepted {cap named s} (h : Reached cap named s) (senders : List (List Nat))
+    (hid : s.accepted.Nodup)
+    (hsub : ∀ acc ∈ senders, acc.Sublist s.accepted)
+    (hcov : ∀ m ∈ s.accepted, ∃ acc ∈ senders, m ∈ acc) :
+    History.fifoOk false s.handled senders = true ∧
+    (s.queue = [] → History.fifoOk true s.handled senders = true) := by
+  have hpre := handled_prefix_of_accepted h
+  have hnd := handled_at_most_once h hid
+  have hq := accepted_is_handled_plus_queued h
+  have common : ∀ complete : Bool, (complete = true → s.queue = []) →
+      History.fifoOk complete s.handled senders = true := by
+    intro complete hc
+    unfold History.fifoOk
+    simp only [Bool.and_eq_true, List.all_eq_true, List.any_eq_true]
+    refine ⟨⟨(History.nodup_iff _).mpr hnd, ?_⟩, ?_⟩
+    · intro m hm
+      obtain ⟨acc, ha, hma⟩ := hcov m (hpre.subset hm)
+      exact ⟨acc, ha, by simpa using hma⟩
+    · intro acc ha
+      have hf : s.accepted.filter acc.contains = acc :=
+        History.filter_contains_of_sublist (hsub acc ha) hid
+      have hp : s.handled.filter acc.contains <+: acc := by
+        have := List.IsPrefix.filter acc.contains hpre
+        rwa [hf] at this
+      refine ⟨(History.isPrefix_iff _ _).mpr hp, ?_⟩
+      cases hcomp : complete with
+      | false => simp
+      | true =>
+        have hqe := hc hcomp
+        rw [hqe] at hq
+        simp only [List.map_nil, List.append_nil] at hq
+        rw [← hq, hf]
+        simp
+  exact ⟨common false (by simp), fun hq => common true (fun _ => hq)⟩
+
+/-! ## non-vacuity: the hypotheses above are met by non-trivial schedules -/
+
+/-- a capacity-2 named actor: two sends race with a stop; one message handled, one stranded, exit `Stopped` -/
+def demoSchedule : List Ev :=
+  [ .preStart true, .signalStarted, .postStart true,
+    .sendCheck ⟨1, false, 0⟩, .sendPush ⟨1, false, 0⟩,
+    .sendCheck ⟨2, true, 4⟩, .pollStop, .sendPush ⟨2, true, 4⟩, .pollMsg,
+    .stopSwap, .stopPush, .handlerEnd true, .pollStop,
+    .beginStop, .preStop true, .dropRx, .postStop true, .release ]
+
+example : ∃ s, run (St.init 2 true) demoSchedule = some s ∧
+    s.pc = .exited .stopped ∧ s.handled = [1] ∧ s.accepted = [1, 2] ∧ s.tok = .dropped ∧
+    hookNames s.log = [.preStart, .postStart, .preStop, .postStop] := by
+  refine ⟨_, rfl, ?_⟩
+  decide
+
+example : Reached 2 true ((run (St.init 2 true) demoSchedule).get (by decide)) := ⟨demoSchedule, by simp⟩
+
+/-- `all_accepted_handled_unless_stopped` applies to a real state: three queued messages get handled in order -/
+example :
+    let s : St := { St.init 3 false with pc := .atRecv, queue := [⟨5, false, 0⟩, ⟨6, true, 4⟩, ⟨7, false, 0⟩] }
+    (settle {} (settleFuel s) s).handled = [5, 6, 7] := by decide
+
+/-- routing: members `[10,11,12,13]`, cursor 6 → start at index 2; 12 full, 13 closed, 10 ok ⇒ 10 gets it,
+13 is evicted, 12 stays -/
+example :
+    Group.send (fun m => if m = 12 then .full else if m = 13 then .closed else .ok) 6 [10, 11, 12, 13]
+      = (.delivered 10, [10, 11, 12], 7) := by decide
+
+example :
+    Group.send (fun m => if m = 11 then Group.Status.full else .closed) 1 [10, 11, 12]
+      = (.full, [11], 2) := by decide
+
+/-- registry: reserve, lookup hidden, activate, visible, second reserve refused, drop, free again -/
+example :
+    let evs : List Registry.REv := [.reserve 1 "a", .reserve 2 "a", .activate 1]
+    ∃ s, Registry.RSt.run {} evs = some s ∧ Registry.get s.map "a" = some 1 ∧ s.live.length = 1 := by
+  refine ⟨_, rfl, ?_⟩
+  decide
+
 end Compio.Props.C19
